@@ -208,6 +208,17 @@ class Exporter:
                 lits = [f"{k}={_attr_lit(v)}" for k, v in sorted(op.properties.items())]
                 lits += [f"{k}={_attr_lit(v)}" for k, v in sorted(op.attributes.items()) if k != "accfg.effects"]
                 sv = [";".join(lits)]
+            if kind == "region":
+                # syntactic hints for the dispatch class: accelerator attribute, first nested kernel op and its operand types
+                acc = op.properties.get("accelerator") or op.attributes.get("accelerator")
+                accn = acc.data if acc is not None and hasattr(acc, "data") else ""
+                kname, ktypes = "", ""
+                for inner in op.walk():
+                    if inner is not op and inner.name.startswith("kernel."):
+                        kname = inner.name
+                        ktypes = ",".join(str(o.type) for o in inner.operands) + "->" + ",".join(str(r.type) for r in inner.results)
+                        break
+                sv = [sv[0], accn, kname, ktypes]
         tag, w = ("", 0)
         if op.results:
             tag, w = type_tag(op.results[0].type)
